@@ -1558,7 +1558,65 @@ def build_race(ctx):
     return outs
 
 
-EXTRA_FAMILIES = [corpus_family, receipts_family, merkle_family, hardfork_family, txsign_family, chainid_family, txroot_family, genesis_family, genesis_store_family, store_family, restart_family, forkboundary_family, bloom_family, receipt_damage_family, concurrent_family]
+# ------------------------------------------------------------------ producer side: identifier of the FINISHED block (cached Hash field)
+def producer_family(ctx, st):
+    """(a) every header mutator, with and without an earlier request for the identifier: is BlockHash() the hash of the final header?
+    (b) a block produced through the real BlockGenerator.GenerateBlock and finished like the dpos / raft factories do, with the node's
+    log level as a configuration dimension (the engine is run again with ARGLIB_LEVEL=debug in its environment)."""
+    rng = ctx.rng
+    quick = ctx.tier == "quick"
+    # (a) package types
+    hs = [rand_header(rng) for _ in range(2 if quick else 20)]
+    obs = run_engine(ctx, st.types_bin, "TestVerifCodecEngine", [{"kind": "HM", "h": json_header(h)} for h in hs], "mutators")
+    stale, fresh = set(), set()
+    for h, o in zip(hs, obs):
+        for name, r in o["mutators"].items():
+            ok = r["id_is_hash_of_final_header"] and r["received_id_is_hash_of_header"]
+            if name.endswith("_after_early_id"):
+                (fresh if ok else stale).add(name[:-len("_after_early_id")])
+            elif not ok:
+                st.fail("C19:mutator-breaks-identifier", "after %s on a block whose identifier had not been asked for, BlockHash() is not the hash of the header" % name,
+                        {"header": json_header(h), "obs": r})
+        st.nontrivial.add(("HM", tuple(sorted(stale))))
+    if stale:
+        st.fail("C19:header-mutators-keep-stale-cached-id",
+                "Block.%s change the header but keep the Hash field cached by an earlier BlockHash()/ID() call: the identifier of the finished block "
+                "(and the Hash field a receiver gets) is then the hash of the UNFINISHED header" % "/".join(sorted(stale)),
+                {"stale_after": sorted(stale), "invalidated_by": sorted(fresh), "example_header": json_header(hs[0])})
+    st.witnesses["C19_early_id_is_stale_refuted"] = (bool(stale) or bool(fresh),
+                                                     ("reported as KNOWN-FINDING C19:header-mutators-keep-stale-cached-id (mutators: %s)" % sorted(stale)) if stale
+                                                     else "REPAIRED in the tree under test: every mutator clears the cached identifier (the code follows "
+                                                          "block_id_of_final_header_invalidating)")
+    # (b) package consensus/chain, both log levels
+    rc, log, binpath = ctx.go_test_binary("consensus/chain", [os.path.join(ENG, "zz_verif_producer_engine_test.go")], "codec_producer.test", use_overlay=True)
+    if rc != 0:
+        raise RuntimeError("consensus/chain (producer) engine build failed:\n" + log[-3000:])
+    cases = [{"ntx": n, "factory": f, "version": v} for n in (0, 1, 3) for f in ("dpos", "raft", "sbp") for v in ((2,) if quick else (0, 2, 3))]
+    for level in ("info", "debug"):
+        obs = run_engine(ctx, binpath, "TestVerifProducerEngine", cases, "producer_" + level, env={"ARGLIB_LEVEL": level})
+        for c, o in zip(cases, obs):
+            rep = {"log_level": level, "case": c, "obs": o}
+            if "panic" in o or "generate_err" in o:
+                st.fail("C19:producer-engine-error", "producing a block failed: %s" % (o.get("panic") or o.get("generate_err")), rep)
+                continue
+            if level == "debug" and not o["debug_enabled"]:
+                st.fail("C19:producer-engine-error", "the debug-level run did not enable debug logging", rep)
+            st.nontrivial.add(("PB", level, c["factory"], min(c["ntx"], 1)))
+            if not o["id_is_hash_of_final_header"] or not o["received_id_is_hash_of_header"]:
+                st.fail("C19:produced-block-id-not-hash-of-final-header",
+                        "log level %s, %s factory, %d txs: the identifier of the produced block is %s of its final header%s" % (
+                            level, c["factory"], c["ntx"],
+                            "the hash of the UNFINISHED header instead" if o["id"] == o["hash_of_unfinished_header"] else "not the hash",
+                            "; GenerateBlock returned with the Hash field already set" if o.get("hash_field_set_by_generate") else ""), rep)
+            if c["factory"] != "sbp" and not o.get("signature_ok"):
+                st.fail("C19:produced-block-signature", "the produced block's signature does not verify", rep)
+        st.evals += len(cases)
+    st.dist["produced_blocks_observed"] = 2 * len(cases)
+    st.rules.append("producer: 5 header mutators x (identifier asked before / not); blocks of 0/1/3 txs through the real GenerateBlock finished as "
+                    "dpos / raft / sbp, at log level info and debug (child process environment), identifier vs hash of the final header, also after protobuf")
+
+
+EXTRA_FAMILIES = [corpus_family, receipts_family, merkle_family, hardfork_family, txsign_family, chainid_family, txroot_family, genesis_family, genesis_store_family, store_family, restart_family, forkboundary_family, bloom_family, receipt_damage_family, concurrent_family, producer_family]
 EXTRA_TARGETS = ["Common/Sha256.vo", "Common/Lit.vo", "Codec/Receipt.vo", "Codec/Merkle.vo", "Codec/Hardfork.vo", "Codec/TxRoot.vo", "Codec/GenesisStore.vo", "Codec/ChainStore.vo", "Codec/Bloom.vo", "Codec/Restart.vo"]  # evaluated models that no theorem depends on
 
 IMPORTS = """From Coq Require Import NArith ZArith List Bool String Uint63.
